@@ -26,6 +26,10 @@ def run(ctx):
         decode(ctx, prog, enc)
         steps(ctx, prog)
         bounds(ctx, prog)
+        # the boundary searches stop on the forgiving char-boundary predicate: its table (C03 TAB-PRED, exact byte classes) is decided
+        # here too, so that a slip in the byte test is reported by the property whose iterators step with it
+        from . import c03
+        c03.pred_tables(ctx, prog)
         # the conversions the interleavings go through: copy() is a field-wise copy, rev() the other direction's type with the same fields
         for fwd, rev, nf in (("Chars", "RChars", 1), ("CharIndices", "RCharIndices", 2)):
             for ty, other in ((fwd, rev), (rev, fwd)):
@@ -38,6 +42,7 @@ def run(ctx):
     ctx.floor("ISO", 4)
     ctx.floor("TAB-BOUND", 2)
     ctx.floor("ACC", 16)
+    ctx.floor("TAB-PRED", 6)
 
 
 def _int_bytes(t):
